@@ -364,6 +364,6 @@ def replay(ctx: Ctx, case):
 
 def run(ctx: Ctx):
     q = ctx.tier == "quick"
-    if not run_given(ctx, "zoom", zoom_cases(), check_zoom, per_shard(ctx, 640 if q else 9000), batch=40):
+    if not run_given(ctx, "zoom", zoom_cases(), check_zoom, per_shard(ctx, 640 if q else 24000), batch=40):
         return
-    run_given(ctx, "cli", cli_cases(), check_cli, per_shard(ctx, 144 if q else 1600), batch=18)
+    run_given(ctx, "cli", cli_cases(), check_cli, per_shard(ctx, 144 if q else 4000), batch=18)
